@@ -210,6 +210,26 @@ def run(tier):
         sc["perf"] = {"strategy": "block", "data": rng.choice([1, 2, 4, 8]), "slowsink": rng.choice([100, 300, 600]), "blockms": rng.choice([0, 0, 0, 20000])}
         sc["meta"]["block"] = 1
         scen.append(sc)
+    # a select item a + b over TEXT columns: whatever the engine makes of two texts (open), a NULL or missing operand gives NULL - on every
+    # row, also after rows on which one of the engine's evaluators failed and another one took over
+    for i in range(40 if quick else 1500):
+        tag = rng.randrange(10**6)
+        ca, cb = "fa%d" % tag, "fb%d" % tag          # names of its own: the item's text is new to the process
+        e = {"t": "bin", "op": "+", "a": col(ca), "b": col(cb)}
+        rows = []
+        for j in range(rng.choice([5, 7, 9])):
+            k = rng.random() if j > 0 else 0.0
+            r = {"id": j + 1}
+            if k < 0.4: r[ca], r[cb] = rng.choice(["John", "a", "x y"]), rng.choice(["Smith", "b"])
+            elif k < 0.6: r[ca], r[cb] = None, rng.choice(["Smith", "b"])
+            elif k < 0.75: r[ca] = rng.choice(["John", "a"])
+            elif k < 0.85: r[cb] = None
+            else: r[ca], r[cb] = rng.choice([1, 2, 5]), rng.choice([1, 3])
+            rows.append(r)
+        meta = {"fam": "direct", "star": 0, "chan": 0, "sel": [{"al": "id", "e": col("id")}, {"al": "full", "e": e}], "profile": "textplus"}
+        sc = {"meta": meta, "sql": "SELECT id, %s + %s AS full FROM stream" % (ca, cb), "rows": rows, "chan": False, "norename": True, "noretype": True}
+        if i % 2: sc["mode"] = "sync"
+        scen.append(sc)
     seqfam.run_scenarios(res, scen, "TraceDirect", tag="direct", relayout_p=0.3, retype_p=0.3, rename_p=0.3)
     seqfam.run_pinned(res, "TraceDirect")
     path_stage(res, rng, quick)
